@@ -119,6 +119,9 @@ def key_pool(cls):
     return prot, methods, dunders, odd, plain
 
 
+_ABSENT = object()
+
+
 def unit_c18_attr(args):
     fam_index, seed = args
     ns = env.load()
@@ -156,11 +159,13 @@ def unit_c18_attr(args):
                             and k not in class_attrs and k not in inst_attrs]
                 # ---- eligible keys: attribute form == item form
                 for k in eligible:
-                    for present in (True, False):
+                    # every JSON value shape, in particular null and the other falsy values
+                    for stored in ({"v": [k]}, None, 0, False, "", [], {}, 0.0, [None], _ABSENT):
+                        present = stored is not _ABSENT
                         n += 1
                         if present:
-                            a[k] = {"v": [k]}
-                            b[k] = {"v": [k]}
+                            a[k] = copy.deepcopy(stored)
+                            b[k] = copy.deepcopy(stored)
                         else:
                             a.pop(k, None)
                             b.pop(k, None)
@@ -175,8 +180,12 @@ def unit_c18_attr(args):
                             gb = ("ok", b[k]()) if isinstance(b[k], ns.SyncedCollection) else ("ok", b[k])
                         except KeyError:
                             gb = ("missing",)
-                        if ga != gb:
-                            bad("obj.%s gives %r but obj[%r] gives %r (depth %d, key %s)" % (k, ga, k, gb, depth, "present" if present else "missing"), "get")
+                        if ga != gb or (ga[0] == "ok" and not strict_eq(ga[1], gb[1])):
+                            bad("obj.%s gives %r but obj[%r] gives %r (depth %d, key %s)" % (
+                                k, ga, k, gb, depth, "present with value %r" % (stored,) if present else "missing"), "get")
+                        if hasattr(a, k) != (k in b):
+                            bad("hasattr(obj, %r) is %r but %r in obj is %r (depth %d, value %r)" % (
+                                k, hasattr(a, k), k, k in b, depth, stored if present else "<missing>"), "get")
                         # del
                         try:
                             delattr(a, k)
@@ -193,7 +202,7 @@ def unit_c18_attr(args):
                         if da != db:
                             bad("del obj.%s: %s, but del obj[%r]: %s (depth %d; a missing key must raise AttributeError)" % (k, da, k, db, depth), "del")
                         # set
-                        v = rng.choice([1, "s", [1, {"q": 2}], {"deep": {"er": [3]}}])
+                        v = rng.choice([1, "s", [1, {"q": 2}], {"deep": {"er": [3]}}, None, 0, False, "", [], {}])
                         try:
                             setattr(a, k, copy.deepcopy(v))
                             sa = "ok"
